@@ -32,6 +32,13 @@ def configs():
         {"preset": "zero", "on": ["link", "image", "backticks", "fence", "table", "entity", "escape", "autolink"], "off": [], "opts": []},
         {"preset": "commonmark", "on": [], "off": ["fragments_join", "balance_pairs"], "opts": [["html", "F"]]},
         {"preset": "js-default", "on": [], "off": ["reference", "list", "blockquote"], "opts": []},
+        # "any rule subset" (the quantifier of C04 does not restrict itself to C01's supported set): core pipeline
+        # rules switched off - inline containers that never reach the inline parser, placeholder tokens that are
+        # never joined, a source that is never normalised
+        {"preset": "js-default", "on": [], "off": ["inline"], "opts": []},
+        {"preset": "js-default", "on": [], "off": ["text_join"], "opts": []},
+        {"preset": "commonmark", "on": ["table"], "off": ["normalize", "text_join"], "opts": [["html", "F"]]},
+        {"preset": "zero", "on": ["escape", "entity"], "off": ["inline"], "opts": []},
     ]
     return [gen.cfg_key(c) for c in cs]
 
